@@ -50,7 +50,29 @@ def strategy(tier):
     return _case(tier)
 
 
+def _local_extra():
+    from vlib import realpool
+
+    return [{"name": "local_real", "strategy": lambda tier: realpool.real_case(5 if tier == "quick" else 8),
+             "examples": {"quick": 4, "thorough": 64}, "wall_s": 240}]
+
+
+EXTRA_STRATEGIES = _local_extra()
+CASE_TIMEOUT_S = 200
+
+
+def run_local(case):
+    """Local backend: real worker pool, `gwf cancel` through the real client."""
+    from vlib import realpool
+
+    viols, labels, info = realpool.run_real(case)
+    mine = [Violation(dict(sig, backend="local"), msg) for p, sig, msg in viols if p == "C17"]
+    return CaseResult(mine, bool(info.get("cancel_hit_running")), sorted(set(labels) | {"backend-local", "real-processes"}))
+
+
 def run_case(case):
+    if case.get("kind") == "real":
+        return run_local(case)
     desc, flavour = case["desc"], case["backend"]
     cmd = CANCEL_CMD[flavour]
     viols, labels = [], {"backend-" + flavour}
